@@ -67,6 +67,17 @@ def voronoi_topo(rng, n_sites=30, kind="random", margin=0.12, min_ridge=0.0):
             corners = c + np.array([[a, b], [-a, b], [-a, -b], [a, -b]]) @ rot.T
             pts = pts[np.hypot(*(pts - c).T) > 1.15 * math.hypot(a, b)]
             pts = np.vstack([pts, corners])
+    elif kind == "penta":
+        # random sites plus five or six sites on one circle with an empty disc: their common Voronoi vertex is a junction where five
+        # or six cells meet
+        pts = rng.random((n_sites, 2))
+        c = rng.uniform(0.35, 0.65, size=2)
+        rad = float(rng.uniform(0.08, 0.12))
+        m_ = int(rng.integers(5, 7))
+        ang = np.sort(rng.uniform(0, 2 * math.pi, size=m_))
+        ang = np.linspace(0, 2 * math.pi, m_, endpoint=False) + rng.uniform(-0.25, 0.25, size=m_) + float(rng.uniform(0, 6.28))
+        pts = pts[np.hypot(*(pts - c).T) > 1.2 * rad]
+        pts = np.vstack([pts, c + rad * np.column_stack([np.cos(ang), np.sin(ang)])])
     elif kind == "quad2":
         # random sites plus a 2 x 3 block of sites (two rectangles sharing a side): two four-fold junctions joined by one ridge, with
         # the ridges through each of them in line
@@ -85,7 +96,7 @@ def voronoi_topo(rng, n_sites=30, kind="random", margin=0.12, min_ridge=0.0):
     vor = sps.Voronoi(pts)
     lo, hi = pts.min(0) - margin, pts.max(0) + margin
     rep = list(range(len(vor.vertices)))
-    if kind in ("quad", "quad2"):
+    if kind in ("quad", "quad2", "penta"):
         for v in range(len(vor.vertices)):
             for u in range(v):
                 if abs(vor.vertices[v][0] - vor.vertices[u][0]) < 1e-7 and abs(vor.vertices[v][1] - vor.vertices[u][1]) < 1e-7:
